@@ -33,6 +33,8 @@ import (
 
 func init() { core.Register("C18", Main) }
 
+var scratchRoot string
+
 var childOpts = core.Opts{Procs: 16, Workers: 1, HangIsViolation: true, StallSec: 180, MemMB: 8192, Env: []string{"GOTRACEBACK=single"}}
 
 type envSpec struct {
@@ -90,9 +92,18 @@ func minU32(a, b uint32) uint32 {
 	return b
 }
 
+// close ends the case's environment. If a finding left goroutines of the node blocked or orphaned,
+// its files stay until the parent removes the run's scratch area.
+func (rn *Runner) close() {
+	if rn.broken && !rn.calib {
+		rn.e.Abandoned = true
+	}
+	rn.e.Close()
+}
+
 // reopen replaces a broken environment.
 func (rn *Runner) reopen(s envSpec) bool {
-	rn.e.Close()
+	rn.close()
 	rn.run.Count("environment_rebuilds", 1)
 	n := open(rn.c, s)
 	if n == nil {
@@ -129,6 +140,17 @@ var _ = cstypes.RoundStepNewHeight
 
 func Main() {
 	r := core.Start("C18", "exploration")
+	if !r.IsChild() {
+		base := ""
+		if fi, err := os.Stat("/dev/shm"); err == nil && fi.IsDir() {
+			base = "/dev/shm"
+		}
+		if d, err := os.MkdirTemp(base, "c18run"); err == nil {
+			os.Setenv("C18_SCRATCH", d) // inherited by the child processes
+			defer os.RemoveAll(d)
+			scratchRoot = d
+		}
+	}
 	r.SetRule("evaluation = one message handed to Reactor.Receive of a reactor built as in production around a live node (4-validator simulated network; victim caught up at some consensus step, or fast-syncing), sent by a stub peer connected through the real switch; non-trivial = a mutated message (distinct reactor, type, mutation, peer-state prelude) that passed decoding and validation, i.e. reached the handler with live state instead of being rejected at the door")
 	only := os.Getenv("C18_ONLY")
 	tg := time.Now()
@@ -170,6 +192,9 @@ func Main() {
 		roundtripGroup(r)
 		lap("roundtripGroup")
 	}
+	if scratchRoot != "" {
+		os.RemoveAll(scratchRoot) // (Finish exits the process)
+	}
 	r.Floor("messages", 1000)
 	r.Floor("mutants_accepted", 100)
 	r.Floor("gossip_waits", 100)
@@ -189,31 +214,45 @@ func consCorpus(r *core.Run) {
 		if rn == nil {
 			return
 		}
-		defer func() { rn.e.Close() }()
+		defer func() { rn.close() }()
 		rebuilds := 0
-		for _, variant := range preludes {
-			l := snapshot(rn.e)
-			h, rd, ok := l.peerHR(variant)
-			if !ok {
-				if variant != "none" {
+		tmpls := []int{0}
+		switch kind {
+		case "Vote", "HasVote", "VoteSetMaj23", "VoteSetBits", "NewValidBlock":
+			tmpls = []int{0, 1} // also the precommit / is-commit flavour of the template
+		}
+		for _, tmpl := range tmpls {
+			for _, variant := range preludes {
+				if tmpl == 1 && variant == "ahead" {
 					continue
 				}
-				h, rd = l.H, l.R
-			}
-			cnt := l.countProto(kind, h, rd)
-			for k := 0; k < cnt; k++ {
-				m, ok := l.protoMutant(kind, h, rd, k, c.R)
+				l := snapshot(rn.e)
+				l.Tmpl = tmpl
+				h, rd, ok := l.peerHR(variant)
 				if !ok {
-					continue
-				}
-				sess := append(l.prelude(variant, c.R), m)
-				sess = append(sess, l.postlude(variant)...)
-				if !rn.Session(variant, sess) {
-					rebuilds++
-					if rebuilds > 40 || !rn.reopen(spec) {
-						return
+					if variant != "none" {
+						continue
 					}
-					l = snapshot(rn.e)
+					h, rd = l.H, l.R
+				}
+				cnt := l.countProto(kind, h, rd)
+				for k := 0; k < cnt; k++ {
+					m, ok := l.protoMutant(kind, h, rd, k, c.R)
+					if !ok {
+						continue
+					}
+					sess := append(l.prelude(variant, c.R), m)
+					sess = append(sess, l.postlude(variant)...)
+					if !rn.Session(variant, sess) {
+						if !rn.calib {
+							rebuilds++
+						}
+						if rebuilds > 6 || !rn.reopen(spec) {
+							return
+						}
+						l = snapshot(rn.e)
+						l.Tmpl = tmpl
+					}
 				}
 			}
 		}
@@ -232,15 +271,17 @@ func consRandom(r *core.Run) {
 		if rn == nil {
 			return
 		}
-		defer func() { rn.e.Close() }()
+		defer func() { rn.close() }()
 		rebuilds := 0
 		for s := 0; s < 120; s++ {
 			if s%6 == 5 {
 				rn.advance(rg, 1+rg.Intn(6))
 			}
 			if rn.broken {
-				rebuilds++
-				if rebuilds > 8 || !rn.reopen(spec) {
+				if !rn.calib {
+					rebuilds++
+				}
+				if rebuilds > 6 || !rn.reopen(spec) {
 					return
 				}
 			}
@@ -329,7 +370,7 @@ func otherCorpus(r *core.Run) {
 		if rn == nil {
 			return
 		}
-		defer func() { rn.e.Close() }()
+		defer func() { rn.close() }()
 		l := snapshot(rn.e)
 		cnt := l.countOther(oc.Reactor, oc.Kind, c.R)
 		rebuilds := 0
@@ -343,8 +384,10 @@ func otherCorpus(r *core.Run) {
 				sess = append(sess, v) // the same peer goes on with a well-formed message
 			}
 			if !rn.Session("-", sess) {
-				rebuilds++
-				if rebuilds > 40 || !rn.reopen(oc.Spec) {
+				if !rn.calib {
+					rebuilds++
+				}
+				if rebuilds > 6 || !rn.reopen(oc.Spec) {
 					return
 				}
 				l = snapshot(rn.e)
@@ -364,15 +407,17 @@ func otherRandom(r *core.Run) {
 		if rn == nil {
 			return
 		}
-		defer func() { rn.e.Close() }()
+		defer func() { rn.close() }()
 		rebuilds := 0
 		for s := 0; s < 100; s++ {
 			if s%8 == 7 {
 				rn.advance(rg, 1+rg.Intn(6))
 			}
 			if rn.broken {
-				rebuilds++
-				if rebuilds > 8 || !rn.reopen(spec) {
+				if !rn.calib {
+					rebuilds++
+				}
+				if rebuilds > 6 || !rn.reopen(spec) {
 					return
 				}
 			}
@@ -491,7 +536,7 @@ func fetchRace(r *core.Run) {
 		if rn == nil {
 			return
 		}
-		defer func() { rn.e.Close() }()
+		defer func() { rn.close() }()
 		for attempt := 0; attempt < 3; attempt++ {
 			rn.FetchRace(c.R)
 			if rn.broken {
@@ -573,7 +618,7 @@ func byzProposer(r *core.Run) {
 		if rn == nil {
 			return
 		}
-		defer func() { rn.e.Close() }()
+		defer func() { rn.close() }()
 		done := 0
 		for h := spec.Height + 1; h < spec.Height+14 && done < 5 && !rn.broken; h++ {
 			l := snapshot(rn.e)
@@ -608,7 +653,15 @@ func (rn *Runner) ByzSession(l *live, r *rand.Rand, variant int) bool {
 	if genuine == nil {
 		return false
 	}
-	switch variant % 4 {
+	pol := uint32(0)
+	switch variant % 5 {
+	case 4: // a valid block, but the proposal claims a proof-of-lock round that is not below its round
+		pb, err := genuine.ToProto()
+		if err != nil {
+			return false
+		}
+		pol = []uint32{l.R, l.R + 1, 1<<32 - 1}[(variant/5)%3]
+		data, hash, what = marshal(pb), genuine.Hash(), fmt.Sprintf("valid block, POLRound=%d (round %d)", pol, l.R)
 	case 0: // fabricated block with one invalid aspect (or a valid one)
 		v := (variant / 4) % 11
 		if b2 := makeBlock(e, v); b2 != nil {
@@ -637,7 +690,7 @@ func (rn *Runner) ByzSession(l *live, r *rand.Rand, variant int) bool {
 	}
 	ps := types.NewPartSetFromData(data, types.BlockPartSizeBytes)
 	bid := types.BlockID{Hash: hash, PartsHeader: ps.Header()}
-	prop := e.Adv.SignProposal(e.AdvIdx, l.H, l.R, 0, bid)
+	prop := e.Adv.SignProposal(e.AdvIdx, l.H, l.R, pol, bid)
 	var sess []Msg
 	if m, ok := l.validMsg("NewRoundStep", l.H, l.R); ok {
 		sess = append(sess, m)
@@ -656,6 +709,17 @@ func (rn *Runner) ByzSession(l *live, r *rand.Rand, variant int) bool {
 	}
 	rn.outbound, rn.settle = false, 0
 	ok := rn.Session("same", sess)
+	if ok && !rn.broken {
+		// another peer in the same round that has not seen the proposal: the node gossips it (and its POL bits)
+		if m, good := l.validMsg("NewRoundStep", l.H, l.R); good {
+			m.Subject = true
+			m.Mut += " (peer to be sent the proposal accepted before: " + what + ")"
+			ok = rn.Session("same", []Msg{m})
+		}
+	}
+	if rn.broken {
+		return true
+	}
 	rs := e.V.CS.GetRoundState()
 	rn.run.Distinct("byz_block_outcome", fmt.Sprintf("proposal=%v block=%v step=%v", rs.Proposal != nil, rs.ProposalBlock != nil, rs.Step))
 	if rs.ProposalBlock != nil {
